@@ -25,7 +25,14 @@ struct Operand {
   Operand(int d_, int kind_, ByteSource& s) : ext(nullptr), d(d_), kind(kind_) {
     c.resize(d * d);
     for (int k = 0; k < d * d; k++) c[k] = 1.0 + k + 0.25 * s.unif();
-    if (kind == 0) v = SU_vector(d);
+    // self-owned operands may have had another dimension before (resized by copy or move assignment): every field the
+    // guards rely on must have followed
+    unsigned past = kind == 2 ? 0 : s.choose(4);
+    int dprev = 2 + (d - 2 + 1 + (int)s.choose(4)) % 5;
+    if (past == 1) { v = SU_vector(dprev); SU_vector t(d); v = std::move(t); }
+    else if (past == 2) { v = SU_vector(dprev); SU_vector t(d); v = t; }
+    else if (past == 3) { v = SU_vector(dprev); v = SU_vector::make_aligned(d); }
+    else if (kind == 0) v = SU_vector(d);
     else if (kind == 1) v = SU_vector::make_aligned(d);
     else { ext = (double*)malloc(sizeof(double) * d * d); v = SU_vector(d, ext); }
     for (int k = 0; k < d * d; k++) v[k] = c[k];
